@@ -39,7 +39,10 @@ RULE = (
     "slots, 0..2 connections), optional DAG-wiring of the owners beforehand, random hand-made signals (a >> b, "
     "c << (a, b), true/false/failed -> run/accumulate_and_run, forward only), hand-set starting nodes; quick: "
     "two targets per scene, thorough: every leaf x with and without run_parent_trees_too; faults {none, failing "
-    "upstream node(s), data cycle, executor inside an inspected closure, data from another scope}; every "
+    "upstream node(s), data cycle, executor inside an inspected closure, data from another scope, a stale "
+    "`running` flag on the target / an upstream node / the driving parent}; leaf and macro targets; `node()` or "
+    "`node.pull(run_parent_trees_too=True)`; a quarter of the fault-free scenes with caching on and repeated "
+    "pulls; hand-made signals on the `ran`/`failed` of driving macros; every "
     "even-numbered scene satisfies ClosureEmitsOnlyRan and DriverSilent (no failure is excusable there: the "
     "oracle computes both hypotheses from the observations and puts them into the signature). Non-trivial = "
     "some pulled level has a closure of >= 2 nodes and the pull got past the refusal checks; distinct by "
@@ -55,8 +58,11 @@ TRUSTED = [
     "label + str(id(node)) is injective on live nodes; caching switched off on every node (C05's subject)",
     "a macro pulled over as a sibling runs as one unit (model: one node that fails iff something inside fails); "
     "targets are leaf nodes",
-    "the model carries 8 variants (3 switches); the implementation has to agree with one and the same variant "
-    "on every case of a run (V000 = the tree as pinned; V111 = with the fix commits 5561838 + 768848e, the tree now)",
+    "the model has 4 switches; the driver evaluates 6 variants per case (all repairs, each single repair "
+    "missing, none) and the implementation has to agree with one and the same variant on every case of a run "
+    "(V0000 = the tree as pinned, V1110 = the tree now, V1111 = with fixes/C11-pull-restore-lists.patch)",
+    "which nodes' caches answer (cache stream only; composites never cache there) and `running` flags set by hand "
+    "are inputs of the model; a running ancestor together with run_parent_trees_too is not generated",
 ]
 ASSUMPTIONS = [
     "wrapped functions are deterministic and touch nothing but their arguments",
@@ -752,7 +758,7 @@ def place_executor(rng, case, t, par, with_parent=False):
 
 
 def gen_cases(rng, tier):
-    n_scenes = 150 if tier == "quick" else 750
+    n_scenes = 200 if tier == "quick" else 1800
     for k in range(n_scenes):
         sc = gen_scene(rng, max_leaf=4 if tier == "quick" else 5, clean=(k % 2 == 0))
         leaves = sc["_meta"]["leaves"]
@@ -765,6 +771,10 @@ def gen_cases(rng, tier):
         fault = sc["_meta"]["fault"]
         for t in targets:
             par = rng.random() < 0.5
+            if fault == "running":
+                # with the parent scopes an ancestor's `fetch` forwards values into the (locked) inputs of running
+                # descendants: whether that raises depends on data and links, which are not modelled
+                par = False
             pulls = [[t, int(par)]]
             sc["call"] = rng.random() < 0.5  # `node()` instead of `node.pull(run_parent_trees_too=True)`
             sc["cache"] = fault in ("none", "fails") and rng.random() < 0.25
@@ -784,7 +794,7 @@ def gen_cases(rng, tier):
                 if fault == "exec":
                     sc["exec"] = place_executor(rng, sc, t, not par)
                 elif fault == "running":
-                    sc["running"] = place_executor(rng, sc, t, not par, with_parent=True)
+                    continue
                 yield with_pulls(sc, [[t, int(not par)]] * (2 if sc["cache"] else 1))
     if tier == "thorough":
         yield from small_scope()
@@ -1129,6 +1139,28 @@ def corpus():
               raw=["pull 1", "node 99 - leaf 0", "conns 1 x", "frobnicate", "obs 1 0 1", "truth 0 7"])
     yield _mk("wf", deep, 7, pulls=[[1, 0], [1, 1]])
     yield _mk("none", deep, 6, pulls=[[1, 1]])
+    # extension: a macro as the target (runs as one unit), through `__call__`
+    yield {**_mk("wf", deep, 7, pulls=[[3, 1], [4, 1]]), "call": True}
+    # a driving macro that fails, with hand-made signals on its `failed` and `ran`
+    mac = {"nodes": [{"gid": 3, "kind": "macro", "inner": {"nodes": [_term(0), _term(1)], "edges": [[1, "a", 0]],
+                                                          "xin": [], "out": 1}}, _term(2), _term(4)], "edges": []}
+    yield _mk("wf", mac, 6, post={"signals": [["sig", 3, "failed", 2, "run"], ["rr", 3, 4]]}, fails=[0],
+              pulls=[[1, 0]])
+    yield _mk("wf", mac, 6, post={"signals": [["sig", 3, "failed", 2, "run"], ["rr", 3, 4]]}, pulls=[[1, 1]])
+    # `running` flags: the target itself (parentless, upstream runs first), a sibling under a workflow (the
+    # workflow tries to resume "a broken process"), the driving workflow
+    chain3 = {"nodes": [_term(0), _term(1), _term(2)], "edges": [[1, "a", 0], [2, "a", 1]]}
+    yield {**_mk("none", chain3, 3, post={"signals": [["rr", 0, 2]]}, pulls=[[2, 0]]), "running": [2]}
+    yield {**_mk("none", chain3, 3, pulls=[[2, 0]]), "running": [1]}
+    yield {**_mk("wf", chain3, 4, pulls=[[2, 0]]), "running": [0]}
+    yield {**_mk("wf", chain3, 4, pulls=[[2, 1]]), "running": [2]}
+    yield {**_mk("wf", chain3, 4, pulls=[[2, 0]]), "running": [3]}
+    # caching on: the second and third pull meet the caches the first one filled; nothing outside may run
+    yield {**_mk("wf", chain3, 4, post={"signals": [["rr", 0, 2]], "dagwire": [3]}, pulls=[[2, 0], [2, 0], [1, 1]]),
+           "cache": True}
+    yield {**_mk("none", {"nodes": [{"gid": 0, "kind": "if", "truth": True}, _term(1), _term(2)],
+                          "edges": [[1, "a", 0]]}, 3,
+                 post={"signals": [["sig", 0, "true", 2, "run"]]}, pulls=[[1, 0], [1, 0]]), "cache": True}
 
 
 def _drop_node(spec, gid):
